@@ -32,6 +32,7 @@ import (
 	"net/http/httptest"
 	"os"
 	"path/filepath"
+	"sort"
 	"strings"
 	"testing"
 	"time"
@@ -255,4 +256,181 @@ func c14iKind(block bool) string {
 		return "block list"
 	}
 	return "allow list"
+}
+
+// ---------------------------------------------------------------- (O, round 8)
+
+// c14lRemove: remove_url through the real handler on configurations of block
+// and allow lists that were all downloaded for real; every position of every
+// array (first, middle, last, only).  Monitor (no model): every list that is
+// still configured has its file, holding ITS OWN version; the removed list's
+// file <id>.txt is gone (renamed to <id>.txt.old) and nothing else went.
+func c14lRemove(t *testing.T, out *vfOut, rnd *vfRand) {
+	type scenario struct {
+		name         string
+		block, allow []int64
+		inAllow      bool
+		k            int
+	}
+	var scs []scenario
+	confs := []struct{ block, allow []int64 }{
+		{[]int64{1, 2, 3}, []int64{4}},
+		{[]int64{5}, []int64{1, 2, 3}},
+		{[]int64{1, 4}, []int64{2, 3}},
+		{[]int64{7}, nil},
+	}
+	for ci, cf := range confs {
+		for k := range cf.block {
+			scs = append(scs, scenario{fmt.Sprintf("conf%d/block-%d-of-%d", ci, k, len(cf.block)), cf.block, cf.allow, false, k})
+		}
+		for k := range cf.allow {
+			scs = append(scs, scenario{fmt.Sprintf("conf%d/allow-%d-of-%d", ci, k, len(cf.allow)), cf.block, cf.allow, true, k})
+		}
+	}
+	for j := 0; j < out.Scale(6, 150); j++ {
+		r := rnd.Fork(uint64(8900 + j))
+		sc := scenario{name: fmt.Sprintf("random-%d", j)}
+		for id, n := int64(1), 2+r.Intn(5); id <= int64(n); id++ {
+			if r.Bool() {
+				sc.block = append(sc.block, id)
+			} else {
+				sc.allow = append(sc.allow, id)
+			}
+		}
+		sc.inAllow = len(sc.block) == 0 || (len(sc.allow) > 0 && r.Bool())
+		if sc.inAllow {
+			sc.k = r.Intn(len(sc.allow))
+		} else {
+			sc.k = r.Intn(len(sc.block))
+		}
+		scs = append(scs, sc)
+	}
+	for _, sc := range scs {
+		dataDir := t.TempDir()
+		rt := &c14lRT{srcs: map[string]*c14lSrc{}}
+		type lst struct {
+			id    int64
+			allow bool
+			tag   string
+			body  []byte
+		}
+		var lists []*lst
+		conf := &Config{DataDir: dataDir, FilteringEnabled: true, FiltersUpdateIntervalHours: 24,
+			HTTPClient: &http.Client{Transport: rt}, ConfigModified: func() {}}
+		mk := func(id int64, allow bool) {
+			tag := fmt.Sprintf("x%d", id)
+			l := &lst{id: id, allow: allow, tag: tag, body: []byte(fmt.Sprintf("||one.%s.example^\n||two.%s.example^\n", tag, tag))}
+			rt.set(&c14lSrc{host: tag + ".c14.example", chunks: [][]byte{l.body}})
+			lists = append(lists, l)
+			y := FilterYAML{Enabled: true, URL: "http://" + tag + ".c14.example/list.txt", Name: tag, Filter: Filter{ID: rulelist.URLFilterID(id)}, white: allow}
+			if allow {
+				conf.WhitelistFilters = append(conf.WhitelistFilters, y)
+			} else {
+				conf.Filters = append(conf.Filters, y)
+			}
+		}
+		for _, id := range sc.block {
+			mk(id, false)
+		}
+		for _, id := range sc.allow {
+			mk(id, true)
+		}
+		d, err := New(conf, nil)
+		if err != nil {
+			t.Fatal(err)
+		}
+		d.filtersInitializerChan = make(chan filtersInitializerParams, 1)
+		if n, _, ok := d.tryRefreshFilters(true, true, true); !ok || n != len(lists) {
+			t.Fatalf("remove/%s: preparing the stored lists: updated %d of %d ok=%v", sc.name, n, len(lists), ok)
+		}
+		victim := sc.block
+		if sc.inAllow {
+			victim = sc.allow
+		}
+		vid := victim[sc.k]
+		body, _ := json.Marshal(map[string]any{"url": fmt.Sprintf("http://x%d.c14.example/list.txt", vid), "whitelist": sc.inAllow})
+		w := httptest.NewRecorder()
+		d.handleFilteringRemoveURL(w, httptest.NewRequest(http.MethodPost, "/control/filtering/remove_url", bytes.NewReader(body)))
+
+		var fails []string
+		fail := func(key, format string, a ...any) { fails = append(fails, key+"\x00"+fmt.Sprintf(format, a...)) }
+		if w.Code != http.StatusOK {
+			fail("C14/remove-url-failed", "remove/%s: remove_url answered %d %s", sc.name, w.Code, w.Body.String())
+		}
+		d.conf.filtersMu.RLock()
+		still := map[int64]bool{}
+		var ob, oa []string
+		for _, f := range d.conf.Filters {
+			still[int64(f.ID)] = true
+			ob = append(ob, vfN(uint64(f.ID)))
+		}
+		for _, f := range d.conf.WhitelistFilters {
+			still[int64(f.ID)] = true
+			oa = append(oa, vfN(uint64(f.ID)))
+		}
+		d.conf.filtersMu.RUnlock()
+		var gone []string
+		var dl []any
+		for _, l := range lists {
+			p := filepath.Join(dataDir, filterDir, fmt.Sprintf("%d.txt", l.id))
+			got, present, rerr := c14lReadFile(p)
+			if rerr != nil {
+				t.Fatal(rerr)
+			}
+			_, oldPresent, _ := c14lReadFile(p + ".old")
+			if !present {
+				gone = append(gone, vfN(uint64(l.id)))
+			}
+			switch {
+			case still[l.id] && !present:
+				fail("C14/remove-url-took-another-lists-file", "remove/%s: remove_url of list %d (index %d of the %s array) and the file %d.txt of list %d, which is STILL CONFIGURED, is ABSENT (renamed to .old: %v): its path holds neither version",
+					sc.name, vid, sc.k, c14iKind(!sc.inAllow), l.id, l.id, oldPresent)
+			case still[l.id] && !bytes.Equal(got, c14lStored(l.body)):
+				fail("C14/list-file-not-own-version", "remove/%s: after remove_url of list %d the file of list %d is %s", sc.name, vid, l.id, c14lAfter(present, got))
+			case !still[l.id] && present:
+				fail("C14/remove-url-left-file", "remove/%s: list %d was removed from the configuration and its file %d.txt stays behind", sc.name, l.id, l.id)
+			}
+			dl = append(dl, map[string]any{"id": l.id, "array": c14iKind(!l.allow), "configured_after": still[l.id], "file_present": present, "old_present": oldPresent})
+		}
+		// the loss of a configured list's file is the first thing to report
+		sort.SliceStable(fails, func(i, j int) bool {
+			return strings.HasPrefix(fails[i], "C14/remove-url-took") && !strings.HasPrefix(fails[j], "C14/remove-url-took")
+		})
+		if still[vid] {
+			fail("C14/remove-url-kept-entry", "remove/%s: list %d is still configured after remove_url", sc.name, vid)
+		}
+		d.Close()
+		ids := func(xs []int64) string {
+			items := make([]string, len(xs))
+			for i, x := range xs {
+				items[i] = vfN(uint64(x))
+			}
+			return vfList("N", items)
+		}
+		cls := []string{"lists", "remove-url"}
+		switch {
+		case len(victim) == 1:
+			cls = append(cls, "remove-only")
+		case sc.k == len(victim)-1:
+			cls = append(cls, "remove-last")
+		case sc.k == 0:
+			cls = append(cls, "remove-first", "remove-has-successor")
+		default:
+			cls = append(cls, "remove-middle", "remove-has-successor")
+		}
+		c := vfCase{
+			Coq: vfApp("CRemove", ids(sc.block), ids(sc.allow), vfBool(sc.inAllow), vfN(uint64(sc.k)),
+				vfList("N", ob), vfList("N", oa), vfList("N", gone)),
+			Nontrivial: true,
+			Classes:    cls,
+			MonitorOK:  len(fails) == 0,
+			Desc: map[string]any{"scenario": "remove/" + sc.name, "block_ids": sc.block, "allow_ids": sc.allow, "removed_id": vid,
+				"removed_from": c14iKind(!sc.inAllow), "index": sc.k, "lists_after": dl},
+		}
+		if len(fails) > 0 {
+			p := strings.SplitN(fails[0], "\x00", 2)
+			c.FindingKey, c.MonitorMsg = p[0], p[1]
+		}
+		out.Emit(c)
+	}
 }
